@@ -723,7 +723,83 @@ func (ts *TermStore) FpCmp(op Op, a, b *Term) *Term {
 			return ts.Bool(x == y)
 		}
 	}
+	if r := ts.fpCmpOfInts(op, a, b); r != nil {
+		return r
+	}
 	return ts.mk(op, SortBool, 0, 0, 0, "", a, b)
+}
+
+// exactInt reports whether t is a float64 conversion of a signed integer of at most 32 bits (exact, so
+// comparisons of such conversions are comparisons of the integers) and returns the integer sign-extended to 64.
+func (ts *TermStore) exactInt(t *Term) (*Term, bool) {
+	if t.S.K != SF64 || t.Op != OFpFromSInt || t.Args[0].S.W > 32 {
+		return nil, false
+	}
+	x := t.Args[0]
+	if x.S.W < 64 {
+		x = ts.SignExt(64-x.S.W, x)
+	}
+	return x, true
+}
+
+// fpCmpOfInts rewrites comparisons between exact integer conversions (and float64 constants) into bit-vector
+// comparisons: sound because int32 -> float64 is injective and monotone.
+func (ts *TermStore) fpCmpOfInts(op Op, a, b *Term) *Term {
+	xa, oka := ts.exactInt(a)
+	xb, okb := ts.exactInt(b)
+	switch {
+	case oka && okb:
+		switch op {
+		case OFpLt:
+			return ts.BvCmp(OBvSLt, xa, xb)
+		case OFpLe:
+			return ts.BvCmp(OBvSLe, xa, xb)
+		case OFpEq:
+			return ts.Eq(xa, xb)
+		}
+	case oka && b.IsConst(), okb && a.IsConst():
+		c := fpVal(b)
+		x := xa
+		if !oka {
+			c, x = fpVal(a), xb
+		}
+		if math.IsNaN(c) {
+			return ts.Bool(false)
+		}
+		const lim = float64(1 << 40)
+		if c >= lim || c <= -lim { // beyond every int32: decided by the sign of c
+			big := c > 0
+			switch op {
+			case OFpLt, OFpLe:
+				if oka { // x ? c
+					return ts.Bool(big)
+				}
+				return ts.Bool(!big) // c ? x
+			case OFpEq:
+				return ts.Bool(false)
+			}
+		}
+		fl, ce := math.Floor(c), math.Ceil(c)
+		k := func(v float64) *Term { return ts.BVConst(64, uint64(int64(v))) }
+		switch op {
+		case OFpEq:
+			if fl != c {
+				return ts.Bool(false)
+			}
+			return ts.Eq(x, k(c))
+		case OFpLt:
+			if oka { // x < c  <=>  x < ceil(c)
+				return ts.BvCmp(OBvSLt, x, k(ce))
+			}
+			return ts.BvCmp(OBvSLt, k(fl), x) // c < x  <=>  floor(c) < x
+		case OFpLe:
+			if oka { // x <= c  <=>  x <= floor(c)
+				return ts.BvCmp(OBvSLe, x, k(fl))
+			}
+			return ts.BvCmp(OBvSLe, k(ce), x) // c <= x  <=>  ceil(c) <= x
+		}
+	}
+	return nil
 }
 
 func (ts *TermStore) FpUn(op Op, a *Term, a0 int) *Term {
@@ -766,11 +842,17 @@ func (ts *TermStore) FpIsNaN(a *Term) *Term {
 	if a.IsConst() {
 		return ts.Bool(math.IsNaN(fpVal(a)))
 	}
+	if a.Op == OFpFromSInt || a.Op == OFpFromUInt {
+		return ts.Bool(false)
+	}
 	return ts.mk(OFpIsNaN, SortBool, 0, 0, 0, "", a)
 }
 func (ts *TermStore) FpIsInf(a *Term) *Term {
 	if a.IsConst() {
 		return ts.Bool(math.IsInf(fpVal(a), 0))
+	}
+	if (a.Op == OFpFromSInt || a.Op == OFpFromUInt) && a.S.K == SF64 {
+		return ts.Bool(false)
 	}
 	return ts.mk(OFpIsInf, SortBool, 0, 0, 0, "", a)
 }
